@@ -519,7 +519,7 @@ std::vector<std::string> split_lines(const std::string& s) {
 
 void c29_case(Ctx& c, Rng& r) {
     Config cfg = base_config(r);
-    const auto nendpoints = r.below(5), nboot = r.below(4), nwarn = r.below(4);
+    const auto nendpoints = r.below(5), nboot = r.below(4), nwarn = r.chance(1, 16) ? 200 + r.below(300) : r.below(4);
     for (std::uint64_t i = 0; i < nendpoints; ++i) {
         Config::AdvertisedEndpoint e{};
         e.host = "203.0.113." + std::to_string(10 + i);
@@ -538,7 +538,10 @@ void c29_case(Ctx& c, Rng& r) {
     }
     cfg.storage_directory = r.chance(1, 2) ? "storage" : "/var/lib/eph store/dir:1";
     Daemon d(cfg);
-    const auto nchunks = r.chance(1, 4) ? r.below(41) : r.below(5);
+    // a daemon that has been up for a while: hundreds of chunks make the folded ENTRIES value tens of kilobytes long
+    static const std::uint64_t many[] = {150, 204, 205, 206, 250, 400, 1000};
+    const auto nchunks = r.chance(1, 10) ? many[r.below(c.thorough ? 7 : 6)] : (r.chance(1, 4) ? r.below(41) : r.below(5));
+    if (nchunks >= 150) c.note("list.responses-with-150-or-more-chunks");
     std::vector<std::pair<ChunkId, std::vector<std::uint8_t>>> stored;
     for (std::uint64_t i = 0; i < nchunks; ++i) {
         const auto id = fx::chunk_id_n(static_cast<unsigned>(i));
